@@ -272,7 +272,7 @@ def work(job):
                     if repr(s2) != repr(sent_d):
                         part.violation('%s: after a malformed input a valid encoding decodes differently' % codec,
                                        {'codec': codec, 'module': text, 'malformed': alt.hex(), 'sentinel': sent_b.hex(), 'before': repr(sent_d)[:300], 'after': repr(s2)[:300]})
-                    if modelled and codec in MODELLED and len(alt) <= 1500:
+                    if modelled and codec in MODELLED and len(alt) <= 1500 and not (codec == 'oer' and has_zero_width_list(t)):   # (the model iterates like the code: recorded finding)
                         reqs.append('dec\t%s\t%s\t%s' % (codec, ty_sx(t), alt.hex() or '-'))
                         meta.append((t, text, codec, alt, d))
     resource.setrlimit(resource.RLIMIT_AS, (soft0, hard0))     # the Lean driver needs its own address space
